@@ -3,7 +3,7 @@
    checks give an error, never a panic.  Only statements, each closed by [exact]. *)
 From Coq Require Import Permutation.
 From Eino Require Import Base.Util Base.FMUniverse Model.FieldMap Proofs.FieldMapOverlap
-  Proofs.FieldMapAssign Proofs.FieldMapComm.
+  Proofs.FieldMapAssign Proofs.FieldMapComm Proofs.FieldMapGetPut Proofs.FieldMapRun.
 
 (* ---------------------------------------------------------------- overlap detection *)
 
@@ -81,3 +81,176 @@ Example assign_order_matters_with_overlap :
   let m := [([10; 2], VInt 5); ([10], VStruct 1 [])]%N in
   convert_to ex_env (TStruct 2) m <> convert_to ex_env (TStruct 2) (rev m).
 Proof. vm_compute. discriminate. Qed.
+
+(* ---------------------------------------------------------------- moves exactly the mapped values *)
+
+(* convertTo on ANY overlap-free map whose target paths are valid for T and whose values fit
+   their slots (= what Compile's static check plus the request-time checkers let through):
+   it succeeds; every target path reads back the assigned value (nil interface = the zero
+   value of the slot); every other path that can be read at all reads as the zero value of
+   its static type. Reading uses [take_path], the walker of the source side. *)
+Theorem assign_get_put :
+  forall (env : senv) (T : ty) (m : fmap),
+    no_conflict (keys m) -> fits env T m ->
+    exists v, convert_to env T m = Ok v /\
+      (forall p x, In (p, x) m ->
+         exists st b, extract_ty env T p = SOk st b /\ take_path env v p = Ok (conv st x)) /\
+      (forall q z, q <> [] -> fresh_for q (keys m) -> take_path env v q = Ok z ->
+         exists st b, extract_ty env T q = SOk st b /\ z = zero st).
+Proof. exact convert_to_spec. Qed.
+Print Assumptions assign_get_put.
+
+(* Invoke through an accepted set of field mappings (every declaration order, since
+   acceptance is order independent), predecessors returning values of their declared
+   types: never a panic; if it succeeds, every mapped target path of the successor's input
+   holds the value found at the source path of its predecessor's output, and every path
+   that does not overlap a target path reads as zero. *)
+Theorem mapped_get_put :
+  forall (env : senv) (T : ty) (ds : list decl) (ckss : list checks) (srcs : list val),
+    compile env T ds = CAccept ckss -> has_plain ds = false ->
+    Forall2 (fun d s => has_type env (d_ty d) s = true) ds srcs ->
+    match run_invoke env T ds ckss srcs with
+    | Panic => False
+    | Err _ => True
+    | Ok v =>
+        (forall d s from to, In (d, s) (combine ds srcs) -> In (from, to) (d_maps d) ->
+           exists x st b, take_path env s from = Ok x /\ extract_ty env T to = SOk st b /\
+                          take_path env v to = Ok (conv st x)) /\
+        (forall q z, q <> [] -> fresh_for q (all_targets ds) -> take_path env v q = Ok z ->
+           exists st b, extract_ty env T q = SOk st b /\ z = zero st)
+    end.
+Proof. exact invoke_spec. Qed.
+Print Assumptions mapped_get_put.
+
+(* AddInput without mappings: accepted only alone; the successor gets the value itself *)
+Theorem plain_edge_alone :
+  forall (env : senv) (T : ty) (ds : list decl) (ckss : list checks),
+    compile env T ds = CAccept ckss -> has_plain ds = true ->
+    exists d, ds = [d] /\ d_maps d = [] /\
+      (forall s, run_invoke env T ds ckss [s] = Ok s) /\ (forall cs, run_stream env T ds ckss [cs] = Ok cs).
+Proof. exact plain_edge_spec. Qed.
+Print Assumptions plain_edge_alone.
+
+(* the accepted example: three predecessors, nested struct / pointer / map / any-hole
+   targets, one source path below an interface-typed field (checked at request time) *)
+Definition ex_decls : list decl :=
+  [ {| d_ty := TStruct 2; d_maps := [([14], [11; 2]); ([10; 4; 100], [10; 3])] |};
+    {| d_ty := TMap true TAny; d_maps := [([100], [13; 101; 102]); ([101], [19; 100; 5; 0])] |};
+    {| d_ty := TInt; d_maps := [([], [16; 103])] |} ]%N.
+Definition ex_srcs : list val :=
+  [ VStruct 2 [(10, VStruct 1 [(4, VMap true TStr (Some [(100, VStr "deep")]))]); (14, VInt 7)];
+    VMap true TAny (Some [(100, VNil); (101, VInt 9)]);
+    VInt 3 ]%N.
+
+Example mapped_get_put_nonvacuous :
+  exists ckss v,
+    compile ex_env (TStruct 2) ex_decls = CAccept ckss /\ has_plain ex_decls = false /\
+    Forall2 (fun d s => has_type ex_env (d_ty d) s = true) ex_decls ex_srcs /\
+    run_invoke ex_env (TStruct 2) ex_decls ckss ex_srcs = Ok v /\
+    take_path ex_env v [11; 2]%N = Ok (VInt 7) /\ take_path ex_env v [10; 3]%N = Ok (VStr "deep") /\
+    take_path ex_env v [13; 101; 102]%N = Ok VNil /\ take_path ex_env v [19; 100; 5; 0]%N = Ok (VInt 9) /\
+    take_path ex_env v [11; 3]%N = Ok (VStr "") /\ ckss <> [[]; []; []].
+Proof.
+  eexists. eexists. split; [vm_compute; reflexivity|].
+  split; [reflexivity|]. split; [repeat constructor|].
+  split; [vm_compute; reflexivity|]. repeat split; try (vm_compute; reflexivity). discriminate.
+Qed.
+
+(* ---------------------------------------------------------------- errors, never a panic *)
+
+(* Whatever Compile accepts never panics at request time, in Invoke and in Stream, whatever
+   values (of the declared types) the predecessors deliver and however they are chunked:
+   mappings that can only be checked at run time (source below an interface-typed field,
+   interface-typed source for a concrete target, nil values, missing keys, nil pointers)
+   end in [Err] or in a value. *)
+Theorem runtime_check_errors :
+  forall (env : senv) (T : ty) (ds : list decl) (ckss : list checks),
+    compile env T ds = CAccept ckss ->
+    (forall srcs, Forall2 (fun d s => has_type env (d_ty d) s = true) ds srcs ->
+                  run_invoke env T ds ckss srcs <> Panic) /\
+    (forall chunkss, Forall2 (fun d cs => Forall (fun c => has_type env (d_ty d) c = true) cs) ds chunkss ->
+                     run_stream env T ds ckss chunkss <> Panic).
+Proof. exact run_no_panic. Qed.
+Print Assumptions runtime_check_errors.
+
+(* a run-time-checked mapping whose value does not fit: [Err], and a nil interface on the
+   source path: [Err] (both were panics before F-C15b/c/h) *)
+Example runtime_check_errors_nonvacuous :
+  let ds := [ {| d_ty := TStruct 2; d_maps := [([13; 2], [14])] |} ]%N in
+  exists ckss, compile ex_env (TStruct 2) ds = CAccept ckss /\ ckss = [[([14], TInt)]]%N /\
+    run_invoke ex_env (TStruct 2) ds ckss [VStruct 2 [(13, VStruct 1 [(2, VInt 5)])]]%N
+      = Ok (VStruct 2 [(14, VInt 5)])%N /\
+    run_invoke ex_env (TStruct 2) ds ckss [VStruct 2 [(13, VMap true TStr (Some [(2, VStr "no")]))]]%N = Err ECheck /\
+    run_invoke ex_env (TStruct 2) ds ckss [VStruct 2 []]%N = Err ESrc.
+Proof. eexists. vm_compute. repeat split; reflexivity. Qed.
+
+(* Before F-C15i a target path below a pointer to an interface (type "*any") passed the static
+   check and every run panicked; the repaired check rejects it. *)
+Theorem runtime_check_errors_v0_refuted :
+  extract_ty_v0 ex_env (TPtr TAny) [100%N] = SOk TAny false /\
+  convert_to ex_env (TPtr TAny) [([100%N], VInt 1)] = Panic /\
+  extract_ty ex_env (TPtr TAny) [100%N] = SErr.
+Proof. vm_compute. repeat split; reflexivity. Qed.
+Print Assumptions runtime_check_errors_v0_refuted.
+
+(* ---------------------------------------------------------------- stream form *)
+
+(* Stream: every chunk of every predecessor is mapped (missing map keys skipped), checked
+   and converted on its own; each converted chunk holds the values of the mappings whose
+   source resolved in that chunk and is zero everywhere else. *)
+Theorem stream_itemwise :
+  forall (env : senv) (T : ty) (ds : list decl) (ckss : list checks) (chunkss : list (list val)),
+    compile env T ds = CAccept ckss -> has_plain ds = false ->
+    Forall2 (fun d cs => Forall (fun c => has_type env (d_ty d) c = true) cs) ds chunkss ->
+    match run_stream env T ds ckss chunkss with
+    | Panic => False
+    | Err _ => True
+    | Ok vs => stream_rel env T ds chunkss vs
+    end.
+Proof. exact stream_spec. Qed.
+Print Assumptions stream_itemwise.
+
+(* The stream in which every predecessor delivers its Invoke value as a single chunk: it
+   succeeds whenever Invoke does, and the chunk coming from predecessor i is the Invoke
+   result restricted to i's target paths (same value on each of them, zero elsewhere) —
+   so overlaying the chunks (what the successor's stream concatenation does, C14/C04) gives
+   the Invoke value. *)
+Theorem stream_agrees :
+  forall (env : senv) (T : ty) (ds : list decl) (ckss : list checks) (srcs : list val) (v : val),
+    compile env T ds = CAccept ckss -> has_plain ds = false ->
+    Forall2 (fun d s => has_type env (d_ty d) s = true) ds srcs ->
+    run_invoke env T ds ckss srcs = Ok v ->
+    exists vs, run_stream env T ds ckss (map (fun s => [s]) srcs) = Ok vs /\
+      Forall2 (fun d vi =>
+                 (forall from to, In (from, to) (d_maps d) -> take_path env vi to = take_path env v to) /\
+                 (forall q z, q <> [] -> fresh_for q (map snd (d_maps d)) -> take_path env vi q = Ok z ->
+                              exists st b, extract_ty env T q = SOk st b /\ z = zero st)) ds vs.
+Proof. exact FieldMapRun.stream_agrees. Qed.
+Print Assumptions stream_agrees.
+
+Example stream_agrees_nonvacuous :
+  exists ckss vs,
+    compile ex_env (TStruct 2) ex_decls = CAccept ckss /\
+    run_stream ex_env (TStruct 2) ex_decls ckss (map (fun s => [s]) ex_srcs) = Ok vs /\
+    List.length vs = 3 /\
+    (* two chunks with disjoint keys from the map-typed predecessor: missing keys are skipped *)
+    run_stream ex_env (TStruct 2) ex_decls ckss
+      [[nth 0 ex_srcs VNil]; [VMap true TAny (Some [(100, VNil)]); VMap true TAny (Some [(101, VInt 9)])]; [VInt 3]]%N
+    = Ok [VStruct 2 [(10, VStruct 1 [(3, VStr "deep")]); (11, VPtr (TStruct 1) (Some (VStruct 1 [(2, VInt 7)])))];
+          VStruct 2 [(13, VMap true TAny (Some [(101, VMap true TAny (Some [(102, VNil)]))]))];
+          VStruct 2 [(19, VMap true (TPtr (TStruct 1)) (Some [(100, VPtr (TStruct 1) (Some (VStruct 1 [(5, VStruct 0 [(0, VInt 9)])])))]))];
+          VStruct 2 [(16, VMap true TAny (Some [(103, VInt 3)]))]]%N.
+Proof. eexists. eexists. split; [vm_compute; reflexivity|]. split; [vm_compute; reflexivity|]. split; vm_compute; reflexivity. Qed.
+
+(* ---------------------------------------------------------------- predecessors' outputs *)
+
+(* In an accepted set no target path lies strictly below (or equals) another one: an
+   assignment never walks into a value that an earlier assignment took from a predecessor's
+   output (the only way the model's walker could alter such a value). The values
+   themselves arrive whole ([mapped_get_put]: the target path reads back exactly x). *)
+Theorem source_not_entered :
+  forall (env : senv) (T : ty) (ds : list decl) (ckss : list checks),
+    compile env T ds = CAccept ckss ->
+    forall l1 p l2 q l3, all_targets ds = l1 ++ p :: l2 ++ q :: l3 -> prefix p q = false /\ prefix q p = false.
+Proof. exact targets_not_nested. Qed.
+Print Assumptions source_not_entered.
